@@ -28,6 +28,14 @@ GOTO_PROGRAMS = {
     'goto_fwd': 'char a, b; void main() { if (a) goto out; b = 1; out: b++; }',
     'goto_loop': 'char a, b; void main() { for (a = 0; a != 3; a++) { if (b) goto done; b = a; } done: b = 2; }',
 }
+# continue / break reached through a switch nested in each kind of loop: the jump target must be defined
+LOOP_EXIT_PROGRAMS = {}
+for _li, (_lname, _loop) in enumerate((('for', 'for (a = 0; a != 3; a++) { %s }'), ('while', 'while (a != 3) { a++; %s }'),
+                                        ('do', 'do { a++; %s } while (a != 3);'))):
+    for _bi, _body in enumerate(('switch (b) { case 1: continue; case 2: b = 3; }', 'switch (b) { case 1: break; default: continue; }',
+                                 'switch (b) { case 1: if (c) continue; b = 2; break; }', 'if (b) continue; switch (b) { case 1: continue; }',
+                                 'switch (b) { case 1: switch (c) { case 2: continue; } b = 1; }', 'if (b) { if (c) break; continue; }')):
+        LOOP_EXIT_PROGRAMS['loopexit_%s_%d' % (_lname, _bi)] = 'unsigned char a, b, c; void main() { %s }' % (_loop % _body)
 # user labels that coincide with generated local labels (known finding F-C13-user-label, when listed)
 CLASH_PROGRAMS = {
     'clash_for': 'char a; void main() { for (a = 0; a != 3; a++) { } goto for1; for1: a = 1; }',
@@ -129,6 +137,7 @@ def run(ctx):
     srcs.update(matrix_programs())
     srcs.update(GOTO_PROGRAMS)
     srcs.update(CLASH_PROGRAMS)
+    srcs.update(LOOP_EXIT_PROGRAMS)
     bad, nfun, stats = wf_pass(ctx, srcs, levels)
     ctx.cov['programs'] = len(srcs)
     ctx.cov['distinct_nontrivial'] = stats['inline_blocks'] + stats['fixes']
